@@ -213,3 +213,54 @@ Proof.
   - unfold op_del. destruct (get_tree w ti) as [t|] eqn:Gt; [|discriminate]. destruct (getitem t k) as [[|n [|n2 l]]|]; try discriminate.
     eexists. apply remove_progress. unfold valid_remove. rewrite Gt. destruct (did_of n (forest_of t)); [reflexivity|discriminate].
 Qed.
+
+(* ---- no over-refusal (audit C03, medium; the area of D12): every uniqueness refusal has a documented cause ---- *)
+From NT Require Import Invariant Refusal.
+
+(* add(node) / add_child(node): EUnique only when the source already is a child of that parent, or the explicit data_id
+   contradicts the source's, or the target parent really has a child with the source's data_id *)
+Theorem add_node_unique_cause w ti p sti src e k b deep :
+  WFw w -> fst (op_add_node w ti p sti src e k b deep) = Err EUnique ->
+  exists t st s, get_tree w ti = Some t /\ get_tree w sti = Some st /\ get_node src (forest_of st) = Some s /\
+    ((ti = sti /\ parent_of src (forest_of st) = Some p) \/
+     (exists x, e = Some x /\ x <> rdid s) \/
+     sibling_with (forest_of t) p (rdid s) 0).
+Proof.
+  intros H. unfold op_add_node. destruct (get_tree w ti) as [t|] eqn:Gt; [|discriminate]. destruct (get_tree w sti) as [st|] eqn:Gs; [|discriminate].
+  destruct (get_node src (forest_of st)) as [s|] eqn:Gn; [|discriminate]. destruct (parent_path p (forest_of t)) as [pq|] eqn:Gp; [|discriminate].
+  destruct (get_ch pq (forest_of t)) as [ch|] eqn:Gc; [|discriminate]. intros X. exists t, st, s. refine (conj eq_refl (conj eq_refl (conj Gn _))).
+  destruct (typed t && negb (typed st)); [discriminate|]. cbv zeta in X.
+  destruct (_ && match e with Some _ => true | None => false end); [discriminate|].
+  destruct (Nat.eqb ti sti && _) eqn:E1.
+  { left. apply andb_true_iff in E1. destruct E1 as [A B]. apply Nat.eqb_eq in A. split; [exact A|].
+    destruct (parent_of src (forest_of st)) as [q|]; [|discriminate]. apply Nat.eqb_eq in B. now subst. }
+  destruct (match e with Some e0 => negb (did_eqb e0 (rdid s)) | None => false end) eqn:E2.
+  { right. left. destruct e as [x|]; [|discriminate]. exists x. split; [reflexivity|]. intros ->.
+    apply negb_true_iff in E2. assert (Y : did_eqb (rdid s) (rdid s) = true) by now apply did_eqb_eq. congruence. }
+  destruct (_ && is_desc_or_self src p (forest_of st)); [discriminate|]. destruct (negb (before_ok (norm_before b) ch)); [discriminate|].
+  destruct (negb (typed t) && typed st); [discriminate|].
+  assert (Eid : (match e with Some e0 => e0 | None => rdid s end) = rdid s).
+  { destruct e as [x|]; [|reflexivity]. apply negb_false_iff in E2. now apply did_eqb_eq in E2. }
+  rewrite Eid in X. destruct (collides t p (rdid s)) eqn:Ec.
+  - right. right. assert (Wt : WF t) by exact (WFw_tree _ ti t H Gt).
+    apply (collides_iff_sibling t p ch (rdid s) Wt); [unfold children_of; now rewrite Gp|exact Ec].
+  - destruct (if match deep with Some x => x | None => false end then _ else _) as [kids n']. destruct (register_all _ _ _). discriminate.
+Qed.
+
+(* move_to: EUnique only when the target is another parent that has a child with the node's data_id *)
+Theorem move_unique_cause w ti n tti target b :
+  fst (op_move w ti n tti target b) = Err EUnique ->
+  exists t s cur tch c, get_tree w ti = Some t /\ get_node n (forest_of t) = Some s /\ parent_of n (forest_of t) = Some cur /\
+    cur <> target /\ children_of target (forest_of t) = Some tch /\ In c tch /\ rdid c = rdid s.
+Proof.
+  unfold op_move. destruct (get_tree w ti) as [t|] eqn:Gt; [|discriminate]. destruct (typed t); [discriminate|].
+  destruct (negb (Nat.eqb ti tti)); [discriminate|]. destruct (get_node n (forest_of t)) as [s|] eqn:Gn; [|discriminate].
+  destruct (children_of target (forest_of t)) as [tch|] eqn:Gc; [|discriminate]. destruct (parent_of n (forest_of t)) as [cur|] eqn:Gp; [|discriminate].
+  destruct (is_desc_or_self n target (forest_of t)); [discriminate|]. cbv zeta. destruct (negb (before_ok (norm_before b) tch)); [discriminate|].
+  destruct (negb (Nat.eqb cur target) && existsb (fun c => did_eqb (rdid c) (rdid s)) tch) eqn:E.
+  - intros _. apply andb_true_iff in E. destruct E as [A B]. apply negb_true_iff, Nat.eqb_neq in A.
+    apply existsb_exists in B. destruct B as (c & Hc & Ed). apply did_eqb_eq in Ed.
+    exists t, s, cur, tch, c. refine (conj eq_refl (conj Gn (conj Gp (conj A (conj Gc (conj Hc Ed)))))).
+  - destruct (match norm_before b with NNode s0 => Nat.eqb s0 n | _ => false end); [discriminate|].
+    destruct (move_in t n target (norm_before b)); discriminate.
+Qed.
